@@ -21,7 +21,7 @@ from ..runner import Acc
 PROP = "C05"
 LEVEL = "exploration"
 
-REAL = ["direct", "arg", "default", "if"]
+REAL = ["direct", "arg", "default", "if", "argname", "argkey"]
 ATOMS = ["", "x", "0", "1", "-1", "1.5", "1e9", "12345678901234567890", "Talk:x", "a/b/c", "{{e}}", "=", "²", "{{e|²=1}}"]
 ALIASES = {"#ausdruck": "#expr", "#wenn": "#if", "kleinb": "lc", "#laenge": "#len", "auffuellen": "padleft", "seitenname": "PAGENAME"}
 TITLES = ["Tt", "Talk:x", "Special:x", "Media:x"]
@@ -92,6 +92,10 @@ def edge_text(real, j):
         return "{{e|" + call + "}}"
     if real == "default":
         return "{{{zz|" + call + "}}}"
+    if real == "argname":
+        return "{{{ " + call + " }}}"          # the call sits in the name of a parameter reference
+    if real == "argkey":
+        return "{{e|" + call + "=1}}"          # the call sits in the key of a named argument
     return "{{#if:1|" + call + "}}"
 
 
@@ -103,6 +107,8 @@ def edge_ast(real, j):
         return ("C", "e", [(None, call)])
     if real == "default":
         return ("P", "zz", call)
+    if real in ("argname", "argkey"):
+        return None                            # no reference output for these realisations (only totality / loop reporting)
     return ("IF", ("T", "1"), call, ("T", ""))
 
 
@@ -139,7 +145,7 @@ def run_graph(ctx, n, edges, real, start):
         outs = [j for (a, j) in edges if a == i]
         body = "T%d" % i + "".join(edge_text(real, j) for j in outs)
         ctx.add_page("Template:t%d" % i, 10, body)
-        lib["t%d" % i] = (("SEQ", [("T", "T%d" % i)] + [edge_ast(real, j) for j in outs]), "none")
+        lib["t%d" % i] = (("SEQ", [("T", "T%d" % i)] + [edge_ast(real, j) for j in outs if edge_ast(real, j) is not None]), "none")
     type(ctx).get_page.cache_clear()
     ctx.start_page("Tt")
     out = []
@@ -157,6 +163,13 @@ def run_graph(ctx, n, edges, real, start):
     msgs = [m["msg"] for m in ctx.errors + ctx.warnings]
     loopmsg = [m for m in msgs if "loop" in m.lower() or "too deep" in m.lower()]
     cyc = reach_cycle(n, edges, start)
+    if real == "argkey":
+        # the key's expansion is not part of the output: only totality and (for cycles) a recorded message are required
+        if cyc and not loopmsg:
+            out.append(("cycle_records_message", msgs[:3], "a loop / depth warning or error"))
+        return out
+    if real == "argname" and not cyc:
+        return out
     if cyc:
         if ERR not in got:
             out.append(("cycle_yields_error_element", got[:200], "an element with " + ERR))
